@@ -822,7 +822,12 @@ def self_check_mode(cls):
             and ast.unparse(body[1]) == "return {f'{self.module_name}.{self.class_name}'}" and iss is Node:
         # only the node's own name is checked (by the standard check); children are plain data
         return dict(mode="standard", walks=False)
-    if "_get_function_name()" in src and "in self.trusted" in src and "return {" in src:
+    FN_BODIES = (
+        ["fn_name = self._get_function_name()", "if self.trusted is True or fn_name in self.trusted:\n    return set()", "return {fn_name}"],
+        ["if self.trusted is True or self._get_function_name() in self.trusted:\n    return set()", "return {self._get_function_name()}"],
+    )
+    if [ast.unparse(b) for b in body] in [list(x) for x in FN_BODIES]:
+        # exactly: "the function's name is in the trusted list, or the name is reported" -- nothing else lets a name through
         fn = which_defines(cls, "_get_function_name")
         fsrc = ast.unparse(src_of(fn._get_function_name).body[-1].value)
         if fsrc == "f'{self.module_name}.{self.class_name}'":
